@@ -79,7 +79,7 @@ def cases_for(rng, tier):
 
 
 def run(ctx):
-    return histcheck.run(ctx, cases_for(ctx.rng, ctx.tier), "C02", tags={"attr", "must-fail-accepted"}, known=KNOWN, unit_modules=["c02unit"],
+    return histcheck.run(ctx, cases_for(ctx.rng, ctx.tier), "C02", tags={"attr", "must-fail-accepted"}, known=KNOWN, unit_modules=["c02unit", "c02file"],
                          rule_extra="C02 cases: attribute histories of 3..300 calls on a dataset or a group hovering around the 8-attribute "
                                     "compact/dense threshold and the header-full point, same-size and different-size overwrites, deletes of "
                                     "present/absent names, all value kinds; plus all histories of length <= 3 (quick) / 5 (thorough) over 2 names x 3 values.")
